@@ -1614,6 +1614,11 @@ func initLocks(h *Heap, p Place, t types.Type) {
 	if isSyncType(t) {
 		f := h.Get(p.Prefix+"#held", len(p.Idx), SBool)
 		h.Set(p.Prefix+"#held", f.Store(p.Idx, False()))
+		if n, ok := t.(*types.Named); ok && n.Obj().Name() == "Map" && n.Obj().Pkg().Path() == "sync" && len(p.Idx) == 1 {
+			// the zero sync.Map of a fresh object is empty (go/ssa elides the store of a zero composite literal)
+			dom := h.Get(p.Prefix+"#smdom", 2, SBool)
+			h.Set(p.Prefix+"#smdom", dom.RowConst(p.Idx[0], False()))
+		}
 		return
 	}
 	if s := structFields(t); s != nil && kindOf(t) == VStruct {
